@@ -45,6 +45,18 @@ func (s *ImmuServer) NewTx(ctx context.Context, request *schema.NewTxRequest) (*
 		return nil, err
 	}
 
+	// same checks as for non-interactive SQL requests: the selected database
+	// must be usable and systemdb is read-only from external access
+	method := "SQLExec"
+	if request.Mode == schema.TxMode_ReadOnly {
+		method = "SQLQuery"
+	}
+
+	_, err = s.getDBFromCtx(ctx, method)
+	if err != nil {
+		return nil, err
+	}
+
 	opts := sql.DefaultTxOptions().
 		WithReadOnly(request.Mode == schema.TxMode_ReadOnly)
 
